@@ -15,6 +15,7 @@ EXPLANATION = ('R1: the wrapper that calls parse_duration uses the unparsed rema
 ASSUMPTIONS = ['comparison of durations is chrono TimeDelta Ord (exact nanosecond counts)', 'digit-by-digit agreement with Go and the round trip are not decided']
 
 DUR = 'cel_interpreter::duration::'
+CTOR = r'^chrono::TimeDelta::(try_)?(nanoseconds|microseconds|milliseconds|seconds|minutes|hours|days|weeks|new)$'
 VALUE = 'cel_interpreter::objects::Value'
 CHRONO_OP = re.compile(r'^<(&?chrono::[\w:]+)(<.*>)? as std::ops::(Add|Sub|Mul|Div|AddAssign|SubAssign)>::')
 ALIASES = {'\u00b5s': ('Microsecond', 10 ** 3), '\u03bcs': ('Microsecond', 10 ** 3)}
@@ -334,7 +335,8 @@ def run(fx, rep):
             if F.norm_callee(t) == 'std::ops::Neg::neg' or re.match(r'^core::num::<impl i\d+>::(checked_|wrapping_|overflowing_)?neg$', F.norm_callee(t) or ''):
                 ty = t['arg_tys'][0]
                 n10 += 1
-                rebuilt = [x for x in pv.of_operand(t['args'][0]) if F.term_contains(x, lambda y: y[0] == 'call' and re.match(r'^chrono::TimeDelta::(try_)?(nanoseconds|microseconds|milliseconds|seconds|minutes|hours|days|weeks|new)$', y[1] or ''))]
+                rebuilt = [x for x in pv.of_operand(t['args'][0]) if F.term_contains(x, lambda y: (y[0] == 'call' and re.match(CTOR, y[1] or '')) or
+                                                                                                    (y[0] == 'const' and isinstance(y[1], tuple) and len(y[1]) > 1 and y[1][0] == 'fn' and re.match(CTOR, F.norm_path(str(y[1][1])))))]
                 narrow = ty in ('i64', 'i32', 'isize')
                 rep.check(not rebuilt and not narrow, 'R10', 'sign-after-wide-sum/%s' % short_ty(ty), F.loc_of(t['span']), 'the negated magnitude is the checked TimeDelta sum of the terms',
                           'the magnitude that is negated %s: 2^63 ns does not fit, so the canonical string of the most negative duration (-2562047h47m16.854775808s) is rejected' %
